@@ -279,13 +279,66 @@ def adversarial_designs():
         yield (f"adv/self-clash/portref-signals/{order}", b7)
 
 
+def cross_module_designs():
+    """the same bundle type under the same instance name in two modules of one design (and of successive elaborations in
+    one process): one module has no clash, the other has a designer's object named like a flattened member"""
+    import hdl21 as h
+
+    def mk(clash_in, what, earlier, suf):
+        def b():
+            L = h.ExternalModule(name="XL", port_list=[h.Inout(name="a"), h.Inout(name="b")], desc="", domain="adv")
+
+            @h.bundle
+            class XB:
+                x = h.Signal()
+                y = h.Signal(width=2)
+
+            def fill(m, clash):
+                m.v = h.Signal()
+                if clash:
+                    if what == "instance":
+                        m.add(L()(a=m.v, b=m.v), name="b_x" + suf)
+                    elif what == "unused-signal":
+                        m.add(h.Signal(name="b_x" + suf))
+                    else:
+                        s = m.add(h.Signal(name="b_x" + suf))
+                        m.add(L()(a=s, b=m.v), name="keep")
+                m.b = XB()
+                m.use = L()(a=m.b.x, b=m.v)
+            inner = h.Module(name="XInner")
+            fill(inner, clash_in == "child")
+            if earlier:
+                h.elaborate(inner)
+            outer = h.Module(name="XOuter")
+            fill(outer, clash_in == "parent")
+            outer.inner = inner()
+            if clash_in == "sibling":
+                sib = h.Module(name="XSib")
+                fill(sib, True)
+                outer.sib = sib()
+            return outer
+        return b
+    for clash_in in ("parent", "child", "sibling"):
+        for what in ("instance", "unused-signal", "used-signal"):
+            for earlier in (False, True):
+                for suf in ("", "_"):
+                    yield (f"adv/cross-module/{clash_in}/{what}/{'inner-elaborated-before' if earlier else 'one-call'}/b_x{suf}",
+                           mk(clash_in, what, earlier, suf))
+
+
 def check_adv(case):
     import hdl21 as h
     from rtc.meaning import meaning, package_meaning, compare, InvalidPackage
     desc, build = case
     top = build()
     want = meaning(top)
-    designer = {n: o for n, o in top.namespace.items()
+    mods, todo = [], [top]
+    while todo:
+        m = todo.pop()
+        if isinstance(m, h.Module) and not any(m is x for x in mods):
+            mods.append(m)
+            todo.extend(getattr(i, "of", None) for i in m.instances.values())
+    designer = {(k, n): o for k, m in enumerate(mods) for n, o in m.namespace.items()
                 if isinstance(o, h.Signal) or (isinstance(o, h.Instance))}
     try:
         pkg = h.to_proto(top)
@@ -293,8 +346,8 @@ def check_adv(case):
         return None     # resolving a clash by raising is allowed
     except Exception as e:
         return (f"adv.raises.{type(e).__name__}", f"{desc}: {type(e).__name__}: {str(e)[:160]}", {"design": desc})
-    for n, o in designer.items():
-        if top.namespace.get(n) is not o:
+    for (k, n), o in designer.items():
+        if mods[k].namespace.get(n) is not o:
             return ("adv.shadowed", f"{desc}: designer object `{n}` was replaced or shadowed", {"design": desc})
     try:
         got = package_meaning(pkg, top.name)
@@ -326,19 +379,19 @@ def run(ctx):
                         "loop insertion sites (arrays.py, flatten_bundles.py, inst_bundles.py): one arbitrary iteration "
                         "from an arbitrary state is proved; Path.to_name and the Instance constructor are abstracted "
                         "(a string / a new named Instance)"]
-    ctx.run_bounded("adversarial-names", adversarial_designs(), check_adv,
+    ctx.run_bounded("adversarial-names", __import__("itertools").chain(adversarial_designs(), cross_module_designs()), check_adv,
                     rule="designer signals/instances named exactly as the elaborator's inventions (inst_port, "
                          "noconn names, bundle_member, array_k, pair_member) with 0-2 trailing underscores, declared "
                          "before or after the construct; invented names that clash with each other (bundle members a_b vs a.b, "
                          "implicit signals i0.a_b vs i0_a.b); oracle: reference meaning + identity of designer objects; "
                          "all distinct and non-trivial",
-                    bound="5 naming rules x 3 suffixes x 2 orders (port references and no-connects: x 5 ways the designer's signal is used) + 8 self-clash designs", key_of=lambda c: c[0])
+                    bound="5 naming rules x 3 suffixes x 2 orders (port references and no-connects: x 5 ways the designer's signal is used) + 8 self-clash designs + 36 designs with one bundle type under one instance name in two modules (clash in the parent, the child or a sibling; child elaborated in the same or an earlier call)", key_of=lambda c: c[0])
     return INFO
 
 
 def replay(payload):
     want = (payload.get("input") or {}).get("design")
-    for desc, b in adversarial_designs():
+    for desc, b in __import__("itertools").chain(adversarial_designs(), cross_module_designs()):
         if desc == want:
             r = check_adv((desc, b))
             print("replay:", r)
